@@ -8,6 +8,7 @@ ID="$1"; TIER="${2:-quick}"
 ROOT="$(cd "$(dirname "$0")" && pwd)"
 export VERIF_ROOT="$ROOT"
 export CARGO_NET_OFFLINE=true
+export CARGO_TARGET_DIR="$ROOT/mc/target"
 cd "$ROOT/mc" || exit 2
 if ! cargo build --release --offline -q 2>"$ROOT/mc/target.build.log"; then
   echo "MACHINERY: build failed (not a verdict)"; tail -n 30 "$ROOT/mc/target.build.log"; exit 2
